@@ -22,6 +22,8 @@ import (
 //	rm       name first|last     RemoveItem(the oldest / newest item of that name in the pipeline; a stranger when there is none)
 //	readd    name first|last     AddItem(that very instance once more)
 //	redeploy name first|last     DeployItem(that very instance once more)
+//	restore  name first|last     AddItem(the instance of that name that RemoveItem took out earliest / most recently and that was not restored yet; nothing when there is none)
+//	init     - <variant 0..3>    Initialize (dry run) in the middle of the sequence: round 3, see round3.go
 type op struct {
 	kind  string
 	sp    spec
@@ -48,7 +50,7 @@ func parseOps(f Sx) []op {
 			res = append(res, op{kind: "feat", name: a[0].Atom})
 		case "add", "deploy":
 			res = append(res, op{kind: x.Tag(), sp: parseDeploys(T("deploys", a[0]))[0]})
-		case "rm", "readd", "redeploy":
+		case "rm", "readd", "redeploy", "restore", "init":
 			res = append(res, op{kind: x.Tag(), name: a[0].Atom, which: a[1].Atom})
 		}
 	}
@@ -70,10 +72,47 @@ func findNamed(p *hercules.Pipeline, name, which string) hercules.PipelineItem {
 
 // runOps applies the calls to a fresh pipeline; after each call the content of the pipeline as
 // (s id name id name ...), ids numbering the instances in the order of their first appearance.
-func runOps(ops []op) (steps []Sx, p *hercules.Pipeline) {
-	p = hercules.NewPipeline(repo)
+// An init call (round 3) records (i <outcome> (twin <outcome>) (s ...)): the outcome of Initialize on this
+// pipeline, the outcome on a FRESH pipeline holding the same instances in the same order (initialised after
+// it: the items are shared), and the content of the pipeline after the call - also after a failure.
+type seqRun struct {
+	steps   []Sx
+	p       *hercules.Pipeline
+	ids     map[hercules.PipelineItem]int
+	insts   []hercules.PipelineItem // by id
+	chained bool                    // some Initialize saw an entity with exactly two providers
+	nt      bool                    // some Initialize saw >= 2 items and a requirement
+}
+
+func hasDup(l []hercules.PipelineItem) bool {
+	seen := map[hercules.PipelineItem]bool{}
+	for _, it := range l {
+		if seen[it] {
+			return true
+		}
+		seen[it] = true
+	}
+	return false
+}
+
+func runOps(ops []op, run int) (res seqRun) {
+	p := hercules.NewPipeline(repo)
+	res.p = p
 	ids := map[hercules.PipelineItem]int{}
+	res.ids = ids
+	removed := map[string][]hercules.PipelineItem{}
+	// round 3 (structures shared between objects): in the odd runs a second, unrelated pipeline is driven through
+	// the same registry between the calls (features, deployments, initialisations): nothing of it may show in
+	// the pipeline under observation - the runs of a case must not differ, the model knows one pipeline only
+	var shadow *hercules.Pipeline
+	if run%2 == 1 {
+		shadow = hercules.NewPipeline(repo)
+	}
 	for i, o := range ops {
+		if shadow != nil {
+			shadowStep(shadow, i+run)
+		}
+		var initOut []Sx
 		_, panicked := Catch(func() {
 			switch o.kind {
 			case "feat":
@@ -86,6 +125,8 @@ func runOps(ops []op) (steps []Sx, p *hercules.Pipeline) {
 				it := findNamed(p, o.name, o.which)
 				if it == nil {
 					it = &synthItem{id: -1, name: o.name}
+				} else {
+					removed[o.name] = append(removed[o.name], it)
 				}
 				p.RemoveItem(it)
 			case "readd":
@@ -96,10 +137,45 @@ func runOps(ops []op) (steps []Sx, p *hercules.Pipeline) {
 				if it := findNamed(p, o.name, o.which); it != nil {
 					p.DeployItem(it)
 				}
+			case "restore":
+				if l := removed[o.name]; len(l) > 0 {
+					k := len(l) - 1
+					if o.which == "first" {
+						k = 0
+					}
+					it := l[k]
+					removed[o.name] = append(append([]hercules.PipelineItem{}, l[:k]...), l[k+1:]...)
+					p.AddItem(it)
+				}
+			case "init":
+				before := append([]hercules.PipelineItem{}, p.VerifItems()...)
+				if hasDup(before) {
+					// the same instance twice in the pipeline: the positions of the order cannot be told apart
+					initOut = []Sx{T("skipped", A("same-instance-twice"))}
+					return
+				}
+				var specs []spec
+				nreq := 0
+				for _, it := range before {
+					sp := specOf(it)
+					specs = append(specs, sp)
+					nreq += len(sp.req)
+				}
+				res.chained = res.chained || chained(specs)
+				res.nt = res.nt || (len(specs) >= 2 && nreq > 0)
+				v := 0
+				fmt.Sscan(o.which, &v)
+				v = (v + run) % 4
+				initOut = []Sx{initialize(p, ids, v)}
+				twin := hercules.NewPipeline(repo)
+				for _, it := range before {
+					twin.AddItem(it)
+				}
+				initOut = append(initOut, T("twin", initialize(twin, ids, v)))
 			}
 		})
 		if panicked {
-			steps = append(steps, T("panic"))
+			res.steps = append(res.steps, T("panic"))
 			return
 		}
 		var l []Sx
@@ -108,15 +184,60 @@ func runOps(ops []op) (steps []Sx, p *hercules.Pipeline) {
 			if !ok {
 				id = len(ids)
 				ids[it] = id
+				res.insts = append(res.insts, it)
 			}
 			l = append(l, I(id), A(it.Name()))
 		}
-		steps = append(steps, T("s", l...))
+		if o.kind == "init" {
+			res.steps = append(res.steps, T("i", append(initOut, T("s", l...))...))
+		} else {
+			res.steps = append(res.steps, T("s", l...))
+		}
 	}
 	return
 }
 
+var shadowLeaves []string
+
+// shadowStep: one call on the unrelated pipeline
+func shadowStep(q *hercules.Pipeline, i int) {
+	if shadowLeaves == nil {
+		for _, l := range hercules.Registry.GetLeaves() {
+			shadowLeaves = append(shadowLeaves, l.Name())
+		}
+		sort.Strings(shadowLeaves)
+	}
+	Catch(func() {
+		switch i % 4 {
+		case 0:
+			q.DeployItem(spec{name: shadowLeaves[(i/4)%len(shadowLeaves)], real: true}.instantiate(0))
+		case 1:
+			initialize(q, map[hercules.PipelineItem]int{}, i%3)
+		case 2:
+			q.SetFeature("uast")
+			q.AddItem(spec{name: "TreeDiff", real: true}.instantiate(0))
+		case 3:
+			if l := q.VerifItems(); len(l) > 0 {
+				q.RemoveItem(l[(i/4)%len(l)])
+			}
+		}
+	})
+}
+
+func hasInit(ops []op) bool {
+	for _, o := range ops {
+		if o.kind == "init" {
+			return true
+		}
+	}
+	return false
+}
+
 func emitSeq(c *Config, kind string, reg *regTable, ops []op) {
+	if hasInit(ops) {
+		emitSeqInit(c, kind, reg, ops)
+		return
+	}
 	var outs []Sx
 	var first string
 	var stepsSx, itemsSx Sx
@@ -124,7 +245,8 @@ func emitSeq(c *Config, kind string, reg *regTable, ops []op) {
 	nitems, nreq := 0, 0
 	var final []spec
 	for r := 0; r < runs; r++ {
-		steps, p := runOps(ops)
+		sr := runOps(ops, r)
+		steps, p := sr.steps, sr.p
 		deployed := p.VerifItems()
 		ids := map[hercules.PipelineItem]int{}
 		var its []Sx
